@@ -347,3 +347,203 @@ Theorem partition_remove_empty t a lab ign :
 Proof.
   unfold partition_t. destruct (lab_error lab); [reflexivity|]. rewrite map_map. reflexivity.
 Qed.
+
+(* ---------------------------------------------------------------- collapse, one-to-one *)
+Definition big_enough (min_group : Z) (g : Z * list vrec) : bool :=
+  Z.leb min_group (Z.of_nat (length (snd g))).
+
+Lemma NoDup_map_fst_filter {A} (p : Z * A -> bool) (g : list (Z * A)) :
+  NoDup (map fst g) -> NoDup (map fst (filter p g)).
+Proof.
+  induction g as [|x g IH]; simpl; intros H; [constructor|].
+  inversion H as [|? ? Hx H']; subst. destruct (p x); simpl; [|apply IH; exact H'].
+  constructor; [|apply IH; exact H']. intros Hi. apply Hx.
+  apply in_map_iff in Hi. destruct Hi as [y [E Hy]]. apply filter_In in Hy.
+  apply in_map_iff. exists y. tauto.
+Qed.
+
+Lemma pos_map_fst {A} (g : list (Z * A)) l b d :
+  NoDup (map fst g) -> In (l, b) g ->
+  exists k, pos l (map fst g) = Some k /\ nth k g d = (l, b) /\ k < length g.
+Proof.
+  unfold pos. induction g as [|[l0 b0] g IH]; simpl; intros Hn Hi; [contradiction|].
+  inversion Hn as [|? ? Hx Hn']; subst. destruct Hi as [Hi|Hi].
+  - inversion Hi; subst. rewrite Z.eqb_refl. exists 0. repeat split; lia.
+  - destruct (Z.eqb l l0) eqn:E.
+    + apply Z.eqb_eq in E. subst. exfalso. apply Hx. apply in_map_iff. exists (l0, b). split; [reflexivity|exact Hi].
+    + destruct (IH Hn' Hi) as [k [K1 [K2 K3]]]. exists (S k). rewrite K1. simpl. repeat split; [exact K2|lia].
+Qed.
+
+Lemma nth_col_sums c m j : j < c -> nth j (col_sums c m) 0%Z = zsum (map (fun r => nth j r 0%Z) m).
+Proof.
+  intros H. unfold col_sums, transpose. rewrite map_map.
+  rewrite (nth_indep _ 0%Z (zsum (mcol m 0))) by (rewrite map_length, seq_length; exact H).
+  rewrite (map_nth (fun x => zsum (mcol m x))). rewrite seq_nth by exact H. reflexivity.
+Qed.
+
+Lemma col_sums_length c m : length (col_sums c m) = c.
+Proof. unfold col_sums. rewrite map_length. apply transpose_length. Qed.
+
+(* the value a vector record holds for an other-axis id *)
+Lemma vrec_cell o v y j :
+  wf o -> In v (vrecs o) -> pos y (sids o) = Some j -> nth j (v_row v) 0%Z = cell0 o (v_id v) y.
+Proof.
+  intros W Hv Hj. destruct (vrecs_facts o W) as (V1 & V2 & V3 & V4).
+  pose proof W as (W1 & W2 & W3 & W4 & W5 & W6).
+  destruct (In_nth _ _ (0%Z, [], md_none) Hv) as [i [Hi Ei]].
+  assert (Eid : v_id v = nth i (oids o) 0%Z).
+  { rewrite <- V2. rewrite (nth_indep _ 0%Z (v_id (0%Z, [], md_none))) by (rewrite map_length; exact Hi).
+    rewrite (map_nth v_id). rewrite Ei. reflexivity. }
+  assert (Erow : v_row v = nth i (mat o) []).
+  { rewrite <- V3. rewrite (nth_indep _ [] (v_row (0%Z, [], md_none))) by (rewrite map_length; exact Hi).
+    rewrite (map_nth v_row). rewrite Ei. reflexivity. }
+  unfold cell0, cell. rewrite Eid, Erow. rewrite V1 in Hi.
+  rewrite pos_nth_NoDup by assumption. rewrite Hj. reflexivity.
+Qed.
+
+Definition kept_groups (o : table) (labels : list Z) (min_group : Z) : list (Z * list vrec) :=
+  filter (big_enough min_group) (groups labels (vrecs o) false).
+
+Lemma collapse_rows_inv o labels norm min_group incl c :
+  collapse_rows o labels norm min_group incl = ROk c ->
+  let gs := kept_groups o labels min_group in
+  c = mkC (mkT (map fst gs) (sids o)
+               (map (fun g => col_sums (nsamp o) (map v_row (snd g))) gs)
+               (if incl then ctor_md (Some (map (fun g => collapsed_md (map v_id (snd g))) gs)) else None)
+               (ctor_md (smd o)) (ttype o))
+          (map (fun g => if norm then Z.of_nat (length (snd g)) else 1%Z) gs).
+Proof.
+  unfold collapse_rows, kept_groups, big_enough. cbv zeta.
+  destruct (filter _ (groups labels (vrecs o) false)) as [|g0 gs]; destruct (sids o); intros H; inversion H; reflexivity.
+Qed.
+
+Lemma collapse_rows_refuses o labels norm min_group incl e :
+  collapse_rows o labels norm min_group incl = RErr e <->
+  kept_groups o labels min_group = [] /\ sids o <> [] /\ e = E_TABLE.
+Proof.
+  unfold collapse_rows, kept_groups, big_enough. cbv zeta.
+  destruct (filter _ (groups labels (vrecs o) false)) as [|g0 gs]; destruct (sids o); split;
+    try discriminate; try (intros (A & B & C); congruence).
+  intros H. inversion H. repeat split; discriminate.
+Qed.
+
+Section CollapseRows.
+  Variables (o : table) (labels : list Z) (norm : bool) (min_group : Z) (incl : bool) (c : collapsed).
+  Hypothesis W : wf o.
+  Hypothesis Hl : length labels = nobs o.
+  Hypothesis Hc : collapse_rows o labels norm min_group incl = ROk c.
+
+  Let gs := kept_groups o labels min_group.
+  Let members (l : Z) := select (map (Z.eqb l) labels) (oids o).
+
+  Lemma cr_len : length labels = length (vrecs o).
+  Proof. destruct (vrecs_facts o W) as (V1 & _). rewrite V1. exact Hl. Qed.
+
+  Lemma cr_group l b :
+    In (l, b) gs -> b = select (map (Z.eqb l) labels) (vrecs o) /\ map v_id b = members l /\
+                    (min_group <= Z.of_nat (length (members l)))%Z /\ In l labels /\
+                    (forall v, In v b -> In v (vrecs o)).
+  Proof.
+    intros H. unfold gs, kept_groups in H. apply filter_In in H. destruct H as [Hg Hb].
+    destruct (groups_spec labels (vrecs o) false cr_len) as (G1 & G2 & G3). cbv zeta in *.
+    destruct (G3 l b Hg) as (Eb & _ & _).
+    destruct (vrecs_facts o W) as (_ & V2 & _).
+    assert (Em : map v_id b = members l) by (rewrite Eb, select_map, V2; reflexivity).
+    repeat split; try assumption.
+    - unfold big_enough in Hb. simpl in Hb. apply Z.leb_le in Hb. rewrite <- Em, map_length. exact Hb.
+    - apply G2. apply in_map_iff. exists (l, b). split; [reflexivity|exact Hg].
+    - intros v Hv. rewrite Eb in Hv. eapply select_In. exact Hv.
+  Qed.
+
+  Lemma cr_keys_NoDup : NoDup (map fst gs).
+  Proof.
+    unfold gs, kept_groups. apply NoDup_map_fst_filter.
+    destruct (groups_spec labels (vrecs o) false cr_len) as (G1 & _). exact G1.
+  Qed.
+
+  Lemma cr_keys l :
+    In l (map fst gs) <-> In l labels /\ (min_group <= Z.of_nat (length (members l)))%Z.
+  Proof.
+    split.
+    - intros H. apply in_map_iff in H. destruct H as [[l' b] [E Hg]]. simpl in E. subst l'.
+      destruct (cr_group l b Hg) as (_ & _ & A & B & _). split; assumption.
+    - intros [Hin Hm]. destruct (groups_spec labels (vrecs o) false cr_len) as (G1 & G2 & G3). cbv zeta in *.
+      assert (In l (gkeys (groups labels (vrecs o) false))) as Hk by (apply G2; split; [exact Hin|reflexivity]).
+      apply in_map_iff in Hk. destruct Hk as [[l' b] [E Hg]]. simpl in E. subst l'.
+      apply in_map_iff. exists (l, b). split; [reflexivity|]. unfold gs, kept_groups. apply filter_In. split; [exact Hg|].
+      destruct (G3 l b Hg) as (Eb & _ & _). destruct (vrecs_facts o W) as (_ & V2 & _).
+      unfold big_enough. simpl. apply Z.leb_le.
+      assert (length b = length (members l)) as ->; [|exact Hm].
+      rewrite <- (map_length v_id b). rewrite Eb, select_map, V2. reflexivity.
+  Qed.
+
+  Lemma cr_ids : oids (ctab c) = map fst gs /\ sids (ctab c) = sids o /\ ttype (ctab c) = ttype o.
+  Proof. rewrite (collapse_rows_inv _ _ _ _ _ _ Hc). cbv zeta. repeat split. Qed.
+
+  Lemma cr_wf : wf (ctab c).
+  Proof.
+    pose proof W as (W1 & W2 & W3 & W4 & W5 & W6).
+    rewrite (collapse_rows_inv _ _ _ _ _ _ Hc). cbv zeta. fold gs. unfold wf, nobs, nsamp. cbn [ctab oids sids mat omd smd].
+    repeat split.
+    - rewrite !map_length. reflexivity.
+    - apply Forall_forall. intros r Hr. apply in_map_iff in Hr. destruct Hr as [g [<- _]]. apply col_sums_length.
+    - apply cr_keys_NoDup.
+    - exact W4.
+    - destruct incl; [|exact I]. apply md_ok_ctor. cbn [md_ok]. rewrite !map_length. reflexivity.
+    - apply md_ok_ctor. exact W6.
+  Qed.
+
+  (* a collapsed vector is the element-wise sum of its members *)
+  Lemma cr_cell l b y j :
+    In (l, b) gs -> pos y (sids o) = Some j ->
+    cell (ctab c) l y = Some (zsum (map (fun x => cell0 o x y) (members l))).
+  Proof.
+    intros Hg Hj. destruct (cr_group l b Hg) as (Eb & Em & _ & _ & Hsub).
+    destruct (pos_map_fst gs l b (0%Z, []) cr_keys_NoDup Hg) as [k [K1 [K2 K3]]].
+    rewrite (collapse_rows_inv _ _ _ _ _ _ Hc). cbv zeta. fold gs. unfold cell. cbn [ctab oids sids mat].
+    rewrite K1, Hj. f_equal. unfold get.
+    rewrite (nth_indep _ [] ((fun g => col_sums (nsamp o) (map v_row (snd g))) (0%Z, [])))
+      by (rewrite map_length; exact K3).
+    rewrite (map_nth (fun g => col_sums (nsamp o) (map v_row (snd g)))). rewrite K2. cbn [snd].
+    pose proof (pos_Some _ _ _ Hj) as [_ Hjlt].
+    rewrite nth_col_sums by exact Hjlt. rewrite map_map. rewrite <- Em, map_map. f_equal.
+    apply map_ext_in. intros v Hv. apply vrec_cell; [exact W|apply Hsub; exact Hv|exact Hj].
+  Qed.
+
+  Lemma cr_div k l :
+    nth_error (map fst gs) k = Some l ->
+    nth_error (cdiv c) k = Some (if norm then Z.of_nat (length (members l)) else 1%Z).
+  Proof.
+    intros H. rewrite (collapse_rows_inv _ _ _ _ _ _ Hc). cbv zeta. fold gs. cbn [cdiv].
+    rewrite nth_error_map in *. destruct (nth_error gs k) as [[l' b]|] eqn:E; [|discriminate].
+    simpl in *. inversion H; subst l'. f_equal. destruct norm; [|reflexivity].
+    destruct (cr_group l b (nth_error_In _ _ E)) as (_ & Em & _). rewrite <- Em, map_length. reflexivity.
+  Qed.
+
+  Lemma collapsed_md_cast ids0 : cast_entry (collapsed_md ids0) = collapsed_md ids0.
+  Proof. reflexivity. Qed.
+
+  Lemma cr_md l :
+    incl = true -> In l (map fst gs) -> md_of Obs (ctab c) l = Some (collapsed_md (members l)).
+  Proof.
+    intros Hi Hin. apply in_map_iff in Hin. destruct Hin as [[l' b] [E Hg]]. simpl in E. subst l'.
+    destruct (cr_group l b Hg) as (_ & Em & _).
+    destruct (pos_map_fst gs l b (0%Z, []) cr_keys_NoDup Hg) as [k [K1 [K2 K3]]].
+    rewrite (collapse_rows_inv _ _ _ _ _ _ Hc). cbv zeta. fold gs. rewrite Hi.
+    unfold md_of, md_at. cbn [ctab ids mds oids omd]. rewrite K1.
+    unfold ctor_md.
+    assert (F : forallb md_falsy (map (fun g => collapsed_md (map v_id (snd g))) gs) = false).
+    { destruct gs as [|g0 gs']; [simpl in K3; lia|]. reflexivity. }
+    rewrite F. rewrite !nth_error_map.
+    rewrite (nth_error_nth' gs (0%Z, [])) by exact K3. rewrite K2. cbn [option_map snd]. rewrite Em. reflexivity.
+  Qed.
+
+  Lemma cr_md_off : incl = false -> omd (ctab c) = None.
+  Proof. intros Hi. rewrite (collapse_rows_inv _ _ _ _ _ _ Hc). cbv zeta. rewrite Hi. reflexivity. Qed.
+
+  Lemma cr_other_md y : md_view Samp (ctab c) y = md_view Samp o y.
+  Proof.
+    rewrite !md_view_entry. rewrite (collapse_rows_inv _ _ _ _ _ _ Hc). cbv zeta. cbn [ctab ids mds sids smd].
+    destruct (pos y (sids o)); [apply entry_view_ctor|reflexivity].
+  Qed.
+End CollapseRows.
